@@ -53,6 +53,14 @@ P = property predicate checked there, M = also compared with the model; [new] = 
                                              (P, may refuse); progress = None/False/True/'click'/ProgressConfig/class/callable;
                                              positional / all-keyword call; k-mer specs 4/ATG, 11/ATGAC, 12/ATG (set
                                              accumulator, uint32), 17/AT (uint64); compression='auto' (PM)
+  progress meter x mode x unreadable file    var-progress-unreadable [round 8]: EVERY value of progress= (left out / None / False / True / 'click' /
+                                             'tqdm' where installed / ProgressConfig with the default and with the caller's stream / the
+                                             Click, Null and Test meter classes / caller's subclass / factory function / caller's meter whose
+                                             close() returns a value) x seq, threads, sup-sync + process / default / supplied pools x an
+                                             unreadable file at EVERY position (n=3; thorough n=2,3,5), a single unreadable file, a file
+                                             failing part-way, the all-readable and the empty list (PM: the meter is a context manager around
+                                             the collecting loop, the failure must still reach the caller); entry-query-parse-progress: the
+                                             same values through query_parse(progress=..., parse_kw=concurrency none/threads) (P)
   gambit signatures create -c N              cli 7 fixed cases (PM); cli-variants [new]: -l list file, --ldir, --cores, progress
                                              bar on, default / other k-mer spec, -c up to 12, repeated and unreadable files;
                                              labels written next to the signatures must not be permuted (P)
@@ -86,6 +94,11 @@ State and aliasing (audit of what can outlive ONE call; kind `seq` = a script of
     -- old: second batch, busy/shared pool (var)
   progress: ProgressConfig (kw dict), meter class one shared ProgressConfig over   callable identity,  meter.increment raises  yes   yes
     / factory; gambit.util.progress.REGISTRY      all calls of a case              kw dict, REGISTRY   at step j, once
+    -- the METER created per call lives inside  (not shared: one per call)       --                  [round 8] a file fails  --    --
+       the call: it is entered around the loop                                                         while a display-backed
+       and closed on the way out of a failure                                                          / value-returning meter
+                                                                                                       is open, every position
+                                                                                                       x mode (kind var)
   result: the SignatureList / arrays handed back  overwritten in place and         --                  --                      twice --
     (the caller's; MutableSequence)               emptied after every step: no
                                                   later result may share storage
@@ -118,7 +131,7 @@ RULE = ('sched: (files, chosen completion order sigma, path supplied|threads|pro
         'distinct files and (observed completion order != submission order, or a bad file, or a skew with >=2 workers). '
         'cli: signatures create -c N (also list files, --cores, progress bar, other k-mer specs); non-trivial: >=2 distinct files.  '
         'var: (files incl. the audit\'s extra readable/unreadable classes, mode seq|threads|processes|default|sup-*, container, '
-        'progress argument, call form, worker count and its type, k-mer spec, compression=auto, same object repeated) -> result list or '
+        'progress argument (every accepted kind x mode x position of an unreadable file), call form, worker count and its type, k-mer spec, compression=auto, same object repeated) -> result list or '
         'exception, plus a second batch / a concurrent second call through a caller-supplied executor; non-trivial: >=2 files with '
         'distinct signatures.  entry: gambit dist / gambit query / query_parse on genome files -> row i must be the distances of '
         'file i\'s single-file signature (reference family with pairwise different distances), failure iff a file is unreadable; '
@@ -1200,6 +1213,38 @@ def _progress_arg(name):
 		return _S['meter_subclass']
 	if name == 'callable':
 		return _RecMeter
+	if name == 'clickbuf':
+		import io
+		return gp.progress_config('click', file=io.StringIO(), desc='verif')      # display-backed meter writing to the caller's own stream
+	if name == 'clickcls':
+		return gp.ClickProgressMeter
+	if name == 'tqdm':
+		return 'tqdm'           # only generated where tqdm is importable
+	if name == 'testcls':
+		return gp.TestProgressMeter
+	if name == 'closeval':
+		# a caller's meter whose close() reports whether the meter was still open (the return value of close() is not
+		# specified by AbstractProgressMeter, so this is inside the interface)
+		if 'meter_closeval' not in _S:
+			class CloseVal(gp.AbstractProgressMeter):
+				def __init__(self, total, initial=0, **kw):
+					self.total, self.n, self.closed = total, initial, False
+
+				def increment(self, delta=1):
+					self.n += delta
+
+				def moveto(self, n):
+					self.n = n
+
+				def close(self):
+					was_open, self.closed = not self.closed, True
+					return was_open
+
+				@classmethod
+				def create(cls, total, initial=0, **kw):
+					return cls(total, initial, **kw)
+			_S['meter_closeval'] = CloseVal
+		return _S['meter_closeval']
 	raise ValueError(name)
 
 
@@ -1231,6 +1276,14 @@ class _Quiet:
 
 
 PROGRESS_KINDS = ['none', 'false', 'true', 'click', 'config', 'nullclass', 'subclass', 'callable']
+#: more values of progress= (stream var-progress-unreadable): the repository's own display-backed / test meters given as
+#: class / configuration with the caller's stream, and a caller's meter whose close() returns a value
+PROGRESS_MORE = ['clickbuf', 'clickcls', 'testcls', 'closeval']
+
+
+def _have_tqdm():
+	import importlib.util
+	return importlib.util.find_spec('tqdm') is not None
 _OMIT = object()
 
 
@@ -1486,7 +1539,7 @@ def _run_entry(case, n):
 			ex = kw['executor'] = ThreadPoolExecutor(max_workers=3)
 		try:
 			with _Quiet():
-				res = query_parse(_S['db'], files, parse_kw=kw or None, progress=None, **({'file_labels': [f'label-{i}' for i in range(len(q))]} if case.get('labels') else {}))
+				res = query_parse(_S['db'], files, parse_kw=kw or None, progress=_progress_arg(case.get('progress')), **({'file_labels': [f'label-{i}' for i in range(len(q))]} if case.get('labels') else {}))
 		finally:
 			if ex is not None:
 				ex.shutdown(wait=True)
@@ -2486,6 +2539,56 @@ def _audit_streams(ctx, rng, skewed):
 				case['listfile'] = rng.choice(['abs', 'ldir'])
 			ctx.count('stream:entry-query-cli')
 		yield 'entry', case
+
+	# ---- 5i. value of progress= x execution mode x position of an unreadable file.  The meter is entered as a context manager
+	# around the loop that collects the results (sequential: the progress iterator; executors: the meter itself), so whether the
+	# failure of a file still reaches the caller depends on all three.  Every kind of meter (also: progress left out) x every mode
+	# x an unreadable file at every position (n=3; thorough also n=2,5), a single unreadable file, and the all-readable list.
+	kinds = PROGRESS_KINDS + PROGRESS_MORE + ['omit'] + (['tqdm'] if _have_tqdm() else [])
+	if not _have_tqdm():
+		ctx.count('var:progress-tqdm-not-installed')
+	bads = list(BAD)
+	late = ['late', 'badcrc', 'truncgz', 'latebig']
+	rot = ['processes', 'default', 'sup-threads', 'sup-processes']
+	for ki, kind in enumerate(kinds):
+		modes = ['seq', 'threads', 'sup-sync'] + ([rot[(ki + ctx.seed) % 4]] if q else rot)
+		for mi, mode in enumerate(modes):
+			heavy = mode in rot
+			shapes = []                     # (n, position of the unreadable file | None, its class)
+			for n in ((3,) if q or heavy else (2, 3, 5)):
+				for pos in ([(ki + mi) % n] if q and heavy else range(n)):
+					shapes.append((n, pos, bads[(ki + mi + pos + n + ctx.seed) % 6]))
+					if not q and not heavy:
+						shapes.append((n, pos, late[(ki + pos + n) % 4]))
+			shapes.append((3, None, None))
+			if not heavy:
+				shapes.append((1, 0, bads[(ki + mi + ctx.seed) % 6]))
+				shapes.append((4, rng.randrange(4), rng.choice(late)))      # fails part-way through the file
+				shapes.append((0, None, None))
+			for n, pos, bad in shapes:
+				fids = some(GOOD_SMALL, n, n)
+				if pos is not None:
+					fids[pos] = bad
+				case = dict(files=fids, mode=mode, form=('kw', 'allkw', 'pos')[(ki + mi + n) % 3] if kind != 'omit' else 'kw')
+				if kind != 'omit':
+					case['progress'] = kind
+				if mode != 'seq':
+					case['workers'] = 2
+				if mode.startswith('sup-'):
+					case['pool_workers'] = 2
+				ctx.count('stream:var-progress-unreadable')
+				yield 'var', case
+	# the same through query_parse(progress=...), which hands the meter configuration on to calc_file_signatures
+	for ki, kind in enumerate(kinds):
+		if kind in ('omit', 'true'):
+			continue
+		for conc in ('none', 'threads'):
+			for pos in ([(ki + ctx.seed) % 3, None] if q else [0, 1, 2, None]):
+				qf = some(fam, 3, 3)
+				if pos is not None:
+					qf[pos] = bads[(ki + pos) % 6] if (ki + pos) % 2 else late[(ki + pos) % 3]
+				ctx.count('stream:entry-query-parse-progress')
+				yield 'entry', dict(entry='qparse', files=qf, parse_kw=dict(concurrency=conc, max_workers=2), progress=kind, labels=bool(ki % 2), auto=False)
 
 
 # ---- 6. statefulness and aliasing: scripts of calls over shared objects (kind seq) ---------------------------------
